@@ -26,7 +26,11 @@ fn from_c(c: Corrupted) -> PIn {
 pub fn gen_encoded(rng: &mut Rng, small: bool) -> Encoded {
     let ast = if rng.chance(1, 8) {
         let n = *rng.pick(&[0usize, 1, 2, 3, 4, 8, 16, 17]);
-        smlgen::gen_tiny_list_file(rng, n)
+        if rng.chance(1, 3) {
+            smlgen::gen_min_list_file(n * 4, rng.chance(1, 2))
+        } else {
+            smlgen::gen_tiny_list_file(rng, n)
+        }
     } else if small {
         smlgen::gen_small_file(rng)
     } else if rng.chance(1, 3) {
